@@ -62,4 +62,10 @@ theorem readFields_err_of_lt (ws : List Nat) (b : Bytes) (h : b.length < sumW ws
       simp [readFields, readU_ok hw, ih _ h']
     · simp [readFields, readU_short (Nat.lt_of_not_le hw)]
 
+theorem readFields_err {ws : List Nat} {b : Bytes} {e : Err} (h : readFields ws b = .error e) : e = .eof := by
+  by_cases hn : sumW ws ≤ b.length
+  · obtain ⟨vs, h1, _⟩ := readFields_ok_of_le ws b hn
+    rw [h1] at h; cases h
+  · rw [readFields_err_of_lt _ _ (Nat.lt_of_not_le hn)] at h; cases h; rfl
+
 end Goflow
